@@ -186,7 +186,7 @@ def _leb_written(o, o2, x, n):
 def _vi_build_inv(L):
     pre = L.extra['pre']
     x0 = t.app('toint', t.INT, pre['obj'].t)
-    B = L.obj('B')
+    B = L.obj_of_kind('B', OBytearray)
     xv, okx = L.eng.as_int(L['x'], L.st)
     return [('x-is-int', okx),
             ('x-is-remaining-value', t.and_(t.eq(xv, shr7(x0, llen(B))), t.ge(xv, t.ZERO))),
